@@ -4,3 +4,4 @@ CONSTANTS
   Bases = {1, 2, 3}
   Types = {"hex", "bin"}
 INVARIANT Emit
+INVARIANT EmitCpu
